@@ -41,8 +41,8 @@ func VerifMemoryFileStep() {
 	verifC12Run(sut, ref, verifC12Cfg{writable: true}, 1, verif.Bound("len", 2, 3), verif.Bound("off", 5, 7))
 }
 
-// VerifMemoryFileZeroLengthWritePastEnd: regression check of the fixed finding.
-func VerifMemoryFileZeroLengthWritePastEnd() {
+// VerifFindingMemoryFileZeroLengthWritePastEnd: regression check of the fixed finding.
+func VerifFindingMemoryFileZeroLengthWritePastEnd() {
 	verifFindingZeroLen(verifNewMemoryFile(verif.Len("capacity", 0, 2)), verifRefFile(nil))
 }
 
